@@ -598,6 +598,12 @@ func main() {
 		os.Exit(2)
 	}
 	repo, out := os.Args[1], os.Args[2]
+	if a, err := filepath.Abs(repo); err == nil {
+		repo = a
+	}
+	if a, err := filepath.Abs(out); err == nil {
+		out = a
+	}
 	_ = os.MkdirAll(out, 0o755)
 	genRoutes(repo, out)
 	genErrors(repo, out)
